@@ -8,6 +8,7 @@ CONSTANTS
   MaxForget = 0
   MaxFail = 0
   Cancellable = {}
+  MaxReprepare = 3
   UniqueIds = TRUE
   Plans <- PL2
 INVARIANT N_EvictInflight
